@@ -75,6 +75,54 @@ fn features(s: &Stream) -> Vec<String> {
     v
 }
 
+/// Known-defect trigger classes (mirrors AfterEmptyTop / CompactDedent / the K1 guard of
+/// YamlPresentation.tla); used only to give a failing case a specific signature.
+fn classes(s: &Stream) -> Vec<&'static str> {
+    let mut out = vec![];
+    for d in &s.docs {
+        let ns = &d.nodes;
+        let root = &ns[1];
+        if root.k == "str" && (root.st == "lit" || root.st == "fold") && (root.cm > 0 || root.an == 1) && !out.contains(&"K1") {
+            out.push("K1");
+        }
+        if root.k == "map" && root.st == "block" {
+            for w in root.kids.chunks(2).collect::<Vec<_>>().windows(2) {
+                let v = &ns[w[0][1]];
+                let k = &ns[w[1][0]];
+                if v.k == "str" && v.st == "plain" && v.s.is_empty() && v.an == 0 && (k.st == "single" || k.st == "double")
+                    && !out.contains(&"K2") {
+                    out.push("K2");
+                }
+            }
+        }
+        if d.cmp {
+            for c in 1..ns.len() {
+                let n = &ns[c];
+                if (n.k == "map" || n.k == "seq") && n.st == "block" && n.r == "item" && n.an == 0 && n.cm == 0 {
+                    let vals: Vec<usize> = if n.k == "seq" { n.kids.clone() } else { n.kids.chunks(2).map(|kv| kv[1]).collect() };
+                    for (j, &v) in vals.iter().enumerate() {
+                        if j + 1 < vals.len() && (ns[v].k == "map" || ns[v].k == "seq") && ns[v].st == "block" && !out.contains(&"V1") {
+                            out.push("V1");
+                        }
+                    }
+                }
+            }
+        }
+    }
+    out
+}
+
+fn class_for(stage: &str, s: &Stream) -> String {
+    let cl = classes(s);
+    let want: &[&str] = if stage.starts_with("validate") { &["V1"] } else { &["K1", "K2"] };
+    for w in want {
+        if cl.contains(w) {
+            return w.to_string();
+        }
+    }
+    String::new()
+}
+
 fn replay(args: &Args) {
     let do_validate = args.u64("validate", 0) == 1;
     let nsamples = args.u64("samples", 0) as usize;
@@ -99,14 +147,14 @@ fn replay(args: &Args) {
         let ytext = String::from_utf8_lossy(&text).into_owned();
         if let Some((stage, detail)) = check_load(&text, &s) {
             bad += 1;
-            out.emit(json!({"id": n, "stage": stage, "yaml": ytext, "detail": detail, "features": feats, "rec": rec}));
+            out.emit(json!({"id": n, "stage": stage, "class": class_for(&stage, &s), "yaml": ytext, "detail": detail, "features": feats, "rec": rec}));
         }
         if do_validate {
             match guarded(|| validate(&text)) {
                 Ok(Ok(())) => {}
                 Ok(Err(e)) => {
                     vbad += 1;
-                    out.emit(json!({"id": n, "stage": "validate", "yaml": ytext, "features": feats,
+                    out.emit(json!({"id": n, "stage": "validate", "class": class_for("validate", &s), "yaml": ytext, "features": feats,
                         "detail": format!("validate rejected a well-formed document: {} at offset {} line {} column {}",
                                           e.kind, e.position.offset, e.position.line, e.position.column),
                         "kind": format!("{:?}", e.kind).split([' ', '{', '(']).next().unwrap_or("").to_string(),
@@ -114,7 +162,7 @@ fn replay(args: &Args) {
                 }
                 Err(p) => {
                     vbad += 1;
-                    out.emit(json!({"id": n, "stage": "validate-panic", "yaml": ytext, "features": feats,
+                    out.emit(json!({"id": n, "stage": "validate-panic", "class": "", "yaml": ytext, "features": feats,
                         "detail": format!("validate panicked: {p}"), "rec": rec}));
                 }
             }
